@@ -45,6 +45,8 @@ public:
   adept::Real op_mult(adept::uIndex i) const { return multiplier_[i]; }
   adept::uIndex op_index(adept::uIndex i) const { return index_[i]; }
   bool grads_init() const { return gradients_initialized_; }
+  adept::uIndex indep_idx(std::size_t i) const { return independent_index_[i]; }
+  adept::uIndex dep_idx(std::size_t i) const { return dependent_index_[i]; }
   adept::uIndex n_alloc_grad() const { return n_allocated_gradients_; }
 };
 
